@@ -90,11 +90,27 @@ def generate(rng, tier):
         if rng.random() < 0.3:
             ops.append({"op": "get", "on": "C"})
         actors.append({"name": "k0", "ops": ops})
-    actors.append({"name": "zclose", "after": 4096,
-                   "ops": [{"op": "close", "on": "C"}, {"op": "iter", "on": "C"},
-                           {"op": "get", "on": "C"}]})
+    closing = [{"op": "close", "on": "C"}, {"op": "iter", "on": "C"}, {"op": "get", "on": "C"}]
+    resources = {"C": {"kind": "channel"}}
+    if rng.random() < 0.3:
+        # a second, unrelated channel with its own consumers and producer
+        resources["C2"] = {"kind": "channel"}
+        for c in range(rng.randint(1, 2)):
+            ops = []
+            _gap(rng, ops, 0.4)
+            ops.append({"op": "get", "on": "C2"} if rng.random() < 0.4 else
+                       {"op": "iter", "on": "C2", "body": [], "n": rng.randint(1, 3)})
+            actors.append({"name": "c2x%d" % c, "ops": ops})
+        ops = [{"op": "sleep", "d": rng.choice(DELAYS)}]
+        for j in range(rng.randint(1, 4)):
+            ops.append({"op": "put", "on": "C2", "v": 2000 + j})
+            _gap(rng, ops)
+        actors.append({"name": "p2x", "ops": ops})
+        closing += [{"op": "close", "on": "C2"}, {"op": "iter", "on": "C2"},
+                    {"op": "get", "on": "C2"}]
+    actors.append({"name": "zclose", "after": 4096, "ops": closing})
     return {"property": ID,
-            "scenario": {"resources": {"C": {"kind": "channel"}}, "actors": actors},
+            "scenario": {"resources": resources, "actors": actors},
             "plan": [], "config": {"waitq": rng.choice(["heap", "sd"])}}
 
 
@@ -110,11 +126,26 @@ SIGNALS = {"cancel": "CancelTask", "interrupt": "CancelScope", "close": "Generat
 
 
 def check(rec):
+    """Every Channel of the scenario is checked on its own."""
+    out, seen = [], set()
+    names = [name for name, spec in rec.case["scenario"]["resources"].items()
+             if spec.get("kind") == "channel"]
+    for name in names or ["C"]:
+        for violation in _check_one(rec, name):
+            key = (violation["rule"], violation["msg"])
+            if key not in seen and len(out) < 5:
+                seen.add(key)
+                out.append(violation)
+    return out
+
+
+def _check_one(rec, cname):
     out = []
 
     def bad(rule, msg):
         if len(out) < 5:
-            out.append({"rule": "C11/" + rule, "msg": msg})
+            out.append({"rule": "C11/" + rule, "msg": msg if cname == "C" else
+                        "[%s] %s" % (cname, msg)})
 
     for rule, msg in rec.kernel_violations:
         bad("kernel:" + rule, msg)
@@ -160,8 +191,8 @@ def check(rec):
 
     for ev in rec.trace:
         tick, act, now, actor, kind = ev[:5]
-        if kind[:3] in ("put", "get", "ite", "clo") and len(ev) > 5 and ev[5] != "C":
-            continue                     # another stream of a mixed program
+        if kind[:3] in ("put", "get", "ite", "clo") and len(ev) > 5 and ev[5] != cname:
+            continue                     # another stream of the program
         if last_time is not None and now != last_time:
             for name, sub in [(n, x) for n, stack in subs.items() for x in stack]:
                 if sub["waiting"]:
